@@ -1,11 +1,11 @@
-// qfh: the implementation runner of the correspondence check.
+// Package hx: the implementation runner of the correspondence check.
 //
 //	qfh <stream> -seed N -n COUNT [-tier quick|thorough] [-replay FILE] [-corpus DIR]
 //
 // For every case it prints one line  id \t input-sx \t observed-sx  on stdout.
 // The input alone determines what the model recomputes; the observation is what the
 // implementation (built from /repo's working tree with -tags verif) did.
-package main
+package hx
 
 import (
 	"bufio"
@@ -48,12 +48,11 @@ func Guard(f func() Sx) (res Sx) {
 	select {
 	case r := <-done:
 		return r
-	case <-time.After(watchdog):
+	case <-time.After(Watchdog):
 		return Atom("fuel") // hang: the model's OutOfFuel
 	}
 }
 
-var watchdog = 5 * time.Second
 
 type Stream struct {
 	Gen func(c *Ctx)        // generate cases and run them
@@ -62,7 +61,14 @@ type Stream struct {
 
 var streams = map[string]*Stream{}
 
-func main() {
+// Register adds a correspondence stream to this binary.
+func Register(name string, s *Stream) { streams[name] = s }
+
+// Watchdog is the time after which Guard reports a hang.
+var Watchdog = 5 * time.Second
+
+// Main is the entry point of every area binary.
+func Main() {
 	if len(os.Args) < 2 {
 		names := []string{}
 		for k := range streams {
